@@ -41,6 +41,14 @@ round 4: every generated case runs under ImplGuard: an exception raised by the c
          distances) in correspondence (requests eucobj2, cwd, tld, georect; angdist / eucld
          answered by the object-level models); Euclidean grids of dimension 1-5 in every
          suite, regular grids from 1-3 axes, one 130-node grid per distance suite
+round 5: Lemmas/GeoRoundNN.lean + Properties: both nearest-node lookups and the radian
+         conversion in rounded arithmetic (gridNodeNumber_rounded / _separated / _first,
+         geoNodeNumber_rounded, rRad_error), the linear regime of the rounded angular kernel;
+         the conclusion of gridNodeNumber_rounded decided in Fractions on float queries incl.
+         near-ties; the models executed in IEEE Float / Float32 against Grid.node_number
+         (gridnnf, gridnnf32) and against the compiled angular kernel on the grid's own
+         generic tables (cosangf32, all sizes incl. 130 nodes) under tolerances derived from
+         the theorems; symBlock read-out (theorem fillSym_block) for kernels beyond 16 / 27 nodes
 """
 import contextlib
 import io
@@ -456,7 +464,11 @@ def run(ctx):
         "networks sharing one grid; round 4: one angular and one Euclidean grid of 130 nodes per run; "
         "geo networks' connectivity weighted and total link distances (all six wrappers, "
         "geometry_corrected both ways, directed and undirected); an exception raised by the code "
-        "under test in any suite is reported as a violation with the inputs of the case")
+        "under test in any suite is reported as a violation with the inputs of the case; round 5: "
+        "Grid.node_number on float32 grids (scaled 2^-8 / 1 / 2^10, coincident nodes) with float "
+        "queries at / near a node, random, and within 2^-60..2^-20 of a bisector, passed as tuple / "
+        "list / float64 array / float32 array; the angular kernel on every grid's own tables incl. "
+        "the 130-node grid; the Euclidean kernel at 130 and 260 nodes")
     ctx.trusted = common.DEFAULT_TRUSTED + [
         "IEEE-754: float32 arithmetic on the dyadic kernel inputs is exact (all intermediate "
         "values have < 24 significant bits) — the reason the Rat model can be compared exactly",
@@ -472,6 +484,11 @@ def run(ctx):
         "dimensions: theorem euclidean_entry_accuracy_float32); that the hardware satisfies the "
         "model is trusted, the bound is also sampled",
         "libm / numpy sin, cos, arccos, sqrt, powf: modelled as the real functions",
+        "round 5: lookups and radian conversion are theorems under the standard model (u = 2^-53 "
+        "/ 2^-24 per operation, correctly rounded square root); numpy's np.sum(axis=1) is a left "
+        "fold below 8 summands (the order the model has); IEEE-754 semantics of Lean's Float / "
+        "Float32 runtime (no fused multiply-add contraction) for the float model streams, which "
+        "are judged under tolerances derived from the theorems, never by float equality",
     ]
     ctx.assumptions = [
         "coordinates are finite; |lat| <= 90; Euclidean coordinates stay far from float32 "
@@ -578,6 +595,11 @@ def suite_kernel_euclid(ctx, K, rng, ncases, maxdim):
     reqs, outs, meta = [], [], []
     for c in range(ncases):
         n = rng.choice([0, 1, 2, 3, 4, 5, 7, 10])
+        if c in (1, 2):
+            # round 5: beyond the range of 8-bit counters / indices (the driver answers through
+            # `symBlock`, theorem euclKernel_block)
+            n = (130, 260)[c - 1]
+            ctx.count(f"kernel-euclid:N={n}")
         d = rng.randrange(1, maxdim + 1)
         X = [[Fr(rng.randrange(-64, 65), 4) for _ in range(n)] for _ in range(d)]
         Xa = np.array([[float(v) for v in r] for r in X], dtype=np.float32).reshape(d, n)
@@ -694,31 +716,116 @@ def suite_grid_node_number(ctx, Grid, rng, ncases):
                          {"space_seq": enc_ratmat(X), "x": enc_rats(q), "observed": ans,
                           "squared_distances": enc_rats(s2)})
     ctx.correspond("Lean gridNodeNumber (Rat) == Grid.node_number", reqs, impl)
-    # implementation-only stream: generic float coordinates / queries (decisions not exact, so
-    # no model comparison): the returned node is at minimal float64 distance up to 1e-12
+    # round 5 — generic float coordinates / queries.  Theorem gridNodeNumber_rounded: under the
+    # standard model (u = 2^-53 for float64 queries, 2^-24 for float32 query arrays, correctly
+    # rounded square root) the node returned satisfies, for every node m,
+    #     (1-u)^(d+5) * |x_k - q|^2  <=  (1+u)^(d+5) * |x_m - q|^2        (squared form, w = u)
+    # The oracle checks exactly that in Fractions (it replaces the former ad-hoc 1e-12), on
+    # queries that include near-ties (points within 2^-60 .. 2^-20 relative of a bisector), and
+    # the Lean model evaluated in IEEE double / single arithmetic in the order of the source
+    # must take the same decision (requests gridnnf / gridnnf32).
+    freqs, fimpl, fmeta = [], [], []
+    flipped = 0
+    fstat = {"same": 0, "other-near-tie": 0}
     for c in range(ncases // 2):
         cur = {}
-        with ImplGuard(ctx, "Grid.node_number:float-stream", cur, []):
-            n = rng.choice([2, 5, 9, 20])
+        with ImplGuard(ctx, "Grid.node_number:float-stream", cur, [freqs, fimpl, fmeta]):
+            n = rng.choice([2, 3, 5, 9, 20])
             d = rng.choice([1, 2, 3, 4, 5])
-            X = np.array([[f32(rng.uniform(-10, 10)) for _ in range(n)] for _ in range(d)])
+            scale = 2.0 ** rng.choice([0, 0, 0, -8, 10])
+            X = np.array([[f32(rng.uniform(-10, 10) * scale) for _ in range(n)]
+                          for _ in range(d)], dtype=np.float64)
+            if n >= 3 and rng.random() < 0.2:
+                X[:, 1] = X[:, 0]                      # coincident nodes: exact tie
+            qk = rng.choice(["near-node", "bisector", "bisector", "random", "at-node"])
             j = rng.randrange(n)
-            q = [float(X[k, j]) + rng.choice([0.0, rng.uniform(-1, 1), rng.uniform(-1e-3, 1e-3)])
-                 for k in range(d)]
-            cur.update(space_seq=X, x=q)
+            if qk == "near-node":
+                q = [float(X[k, j]) + scale * rng.choice([rng.uniform(-1, 1),
+                                                           rng.uniform(-1e-3, 1e-3)])
+                     for k in range(d)]
+            elif qk == "at-node":
+                q = [float(X[k, j]) for k in range(d)]
+            elif qk == "bisector":
+                j2 = rng.randrange(n)
+                eps = rng.choice([0.0, 2.0 ** -60, 2.0 ** -50, 2.0 ** -45, 2.0 ** -30, 2.0 ** -20])
+                q = [(float(X[k, j]) + float(X[k, j2])) / 2 * (1 + rng.choice([-1, 1]) * eps)
+                     for k in range(d)]
+                if d >= 2 and rng.random() < 0.5:      # slide along the bisector (2 coordinates)
+                    a, b = rng.sample(range(d), 2)
+                    va, vb = float(X[a, j] - X[a, j2]), float(X[b, j] - X[b, j2])
+                    t = rng.uniform(-1, 1)
+                    q[a] += t * vb
+                    q[b] -= t * va
+            else:
+                q = [rng.uniform(-12, 12) * scale for _ in range(d)]
+            qc = rng.choice(["tuple", "f64", "f32", "f32", "list"])
+            if qc == "f32":
+                q = [f32(v) for v in q]
+                qx, u, tag = np.array(q, dtype=np.float32), Fr(1, 2 ** 24), "gridnnf32"
+            else:
+                qx = {"tuple": tuple(q), "list": list(q), "f64": np.array(q)}[qc]
+                u, tag = Fr(1, 2 ** 53), "gridnnf"
+            cur.update(space_seq=X, x=q, x_as=qc)
             g = Grid(np.arange(2), X.reshape(d, n), silence_level=3)
-            dist = [math.sqrt(math.fsum((float(X[k, i]) - q[k]) ** 2 for k in range(d)))
-                    for i in range(n)]
+            s2 = [sum((Fr(float(X[k, i])) - Fr(q[k])) ** 2 for k in range(d)) for i in range(n)]
             try:
-                got = int(g.node_number(tuple(q)))
+                got = int(g.node_number(qx))
+                ans = str(got)
             except Exception as e:  # noqa
-                got = None
-            ctx.count("grid-node_number:float-stream")
-            ctx.case(("gnf", X.tobytes().hex(), tuple(q)), True)
-            if got is None or not (0 <= got < n) or dist[got] > min(dist) * (1 + 1e-12) + 1e-300:
+                got, ans = None, "raise:" + type(e).__name__
+            ctx.count(f"grid-node_number:float-stream:x-as={qc}")
+            ctx.count(f"grid-node_number:float-stream:query={qk}")
+            ctx.case(("gnf", X.tobytes().hex(), tuple(q), qc), True)
+            freqs.append(f"{tag} {d} {n} {enc_ratmat(X.tolist())} {enc_rats(q)}")
+            fimpl.append(ans)
+            lo, hi = (1 - u) ** (d + 5), (1 + u) ** (d + 5)
+            fmeta.append((s2, lo, hi, [tuple(X[:, i]) for i in range(n)]))
+            ok = got is not None and 0 <= got < n and lo * s2[got] <= hi * min(s2)
+            if ok and s2[got] != min(s2):
+                flipped += 1
+            if ok and sum(1 for v in s2 if lo * v <= hi * min(s2)) > 1:
+                ctx.count("grid-node_number:float-stream:near-tie-within-rounding-factor")
+            if ok:
+                # theorem gridNodeNumber_rounded_first: first among nodes with identical coordinates
+                first = min(i for i in range(n) if all(X[k, i] == X[k, got] for k in range(d)))
+                if first != got:
+                    ctx.fail({"kind": "lookup", "class": "Grid", "method": "node_number",
+                              "clause": "first-identical"},
+                             f"Grid.node_number returned node {got} although node {first} has "
+                             "identical coordinates (argmin must return the first minimiser)",
+                             {"space_seq": X.tolist(), "x": q, "x_as": qc, "observed": ans})
+            if not ok:
                 ctx.fail({"kind": "lookup", "class": "Grid", "method": "node_number"},
-                         "Grid.node_number does not return a node at minimal distance",
-                         {"space_seq": X.tolist(), "x": q, "observed": got, "distances": dist})
+                         "Grid.node_number does not return a node at minimal distance (up to the "
+                         "rounding factor of theorem gridNodeNumber_rounded)",
+                         {"space_seq": X.tolist(), "x": q, "x_as": qc, "observed": ans,
+                          "squared_distances": [float(v) for v in s2]})
+    ctx.extra["grid_node_number_float"] = {
+        "cases": len(freqs), "rounding_changed_the_exact_argmin": flipped,
+        "bound": "(1-u)^(d+5) s2[k] <= (1+u)^(d+5) min s2, u = 2^-53 (float64) / 2^-24 (float32)"}
+
+    def judge_f(i, m):
+        # the model evaluated in IEEE arithmetic in the order of the source and the implementation
+        # must agree — up to what theorem gridNodeNumber_rounded leaves open: two different nodes
+        # are accepted only if each is nearest up to the rounding factor (decided in Fractions)
+        # and they do not have identical coordinates (then both must return the first)
+        s2, lo, hi, cols = fmeta[i]
+        if m == fimpl[i]:
+            fstat["same"] += 1
+            return None
+        if m.isdigit() and fimpl[i].isdigit() and int(m) < len(s2) and int(fimpl[i]) < len(s2):
+            a, b = int(m), int(fimpl[i])
+            if lo * s2[a] <= hi * s2[b] and lo * s2[b] <= hi * s2[a] and cols[a] != cols[b]:
+                fstat["other-near-tie"] += 1
+                return None
+        return f"model={m} impl={fimpl[i]}"
+
+    custom_correspond(ctx, "Lean gridNodeNumber in IEEE Float / Float32 (source order) ~ Grid.node_number "
+                      "on float queries incl. near-ties (same node, or two nodes within the rounding "
+                      "factor of gridNodeNumber_rounded)", freqs, judge_f)
+    ctx.extra["grid_node_number_float"]["model_same_node"] = fstat["same"]
+    ctx.extra["grid_node_number_float"]["model_other_node_within_rounding_factor"] = \
+        fstat["other-near-tie"]
 
 
 # --------------------------------------------------------------------------
@@ -833,6 +940,14 @@ def kernel_rounding(ctx, g, C32, n, tab):
         rlat.astype(np.float64) - lat32.astype(np.float64) * math.pi / 180).max()))
     tab["eps_lon"] = max(tab["eps_lon"], float(np.abs(
         rlon.astype(np.float64) - lon32.astype(np.float64) * math.pi / 180).max()))
+    # round 5: theorem rRad_error — |computed radians - exact| <= ((1+u)^3 - 1) |x| pi / 180
+    for x32, r32 in ((lat32, rlat), (lon32, rlon)):
+        x64 = np.abs(x32.astype(np.float64))
+        nz = x64 > 0
+        if nz.any():
+            bnd = ((1 + U32) ** 3 - 1) * x64[nz] * math.pi / 180
+            err = np.abs(r32.astype(np.float64)[nz] - x32.astype(np.float64)[nz] * math.pi / 180)
+            tab["eps_ratio"] = max(tab.get("eps_ratio", 0.0), float((err / bnd).max()))
     if n > 8:
         return out
     F = {k: [Fr(float(v)) for v in t] for k, (t, _, _) in tabs.items()}
@@ -870,6 +985,7 @@ def suite_angular(ctx, GeoGrid, rng, ncases, K):
     stats = {"abs": 0.0, "rel": 0.0, "pairs": 0}
     eta = {"all": 0.0, "end": 0.0, "pairs": 0, "end_pairs": 0}
     tab = {"delta": 0.0, "eps_lat": 0.0, "eps_lon": 0.0, "round": 0.0, "entries": 0, "pairs": 0}
+    kreqs, kimpl = [], []
     for c in range(ncases):
         cur = {}
         with ImplGuard(ctx, "GeoGrid.angular_distance", cur, [reqs, outs, metas]):
@@ -929,6 +1045,16 @@ def suite_angular(ctx, GeoGrid, rng, ncases, K):
                     eta["end"] = max(eta["end"], float(dc[endz].max()))
                     eta["end_pairs"] += int(endz.sum())
                 viol += kernel_rounding(ctx, g, C32, n, tab)
+                if all(t.dtype == np.float32 for t in
+                                   (g.sin_lat(), g.cos_lat(), g.sin_lon(), g.cos_lon())):
+                    # round 5: the model `cosAngKernel` executed in IEEE single precision on the
+                    # kernel's own (generic, non-dyadic) tables must store the same bit patterns
+                    # (all sizes incl. the 130-node grid: the driver answers through `symBlock`
+                    # beyond 16 nodes, theorem cosAngKernel_block)
+                    kreqs.append("cosangf32 %d %s %s %s %s" % (
+                        n, enc_rats(map(float, g.sin_lat())), enc_rats(map(float, g.cos_lat())),
+                        enc_rats(map(float, g.sin_lon())), enc_rats(map(float, g.cos_lon()))))
+                    kimpl.append(C32.copy())
             for clause, what in viol:
                 ctx.fail({"kind": "angular", "class": "GeoGrid", "method": "angular_distance",
                           "clause": clause},
@@ -976,6 +1102,7 @@ def suite_angular(ctx, GeoGrid, rng, ncases, K):
             "table_entries": tab["entries"], "pairs": tab["pairs"],
             "max_delta_in_units_of_2^-24": round(d_ / U32, 3),
             "max_eps_lat_log2": lg(ef), "max_eps_lon_log2": lg(el),
+            "max_eps_over_bound_of_theorem_rRad_error": round(tab.get("eps_ratio", 0.0), 4),
             "max_kernel_rounding_error_over_rcos_core_bound": round(tab["round"], 4),
             "bound_of_the_theorem_at_the_measured_values_log2": lg(bound),
             "max_abs_err_observed_log2": lg(stats["abs"]),
@@ -988,6 +1115,38 @@ def suite_angular(ctx, GeoGrid, rng, ncases, K):
         "max_abs_err_log2": round(math.log2(stats["abs"]), 2) if stats["abs"] else None,
         "max_rel_err_mid_log2": round(math.log2(stats["rel"]), 2) if stats["rel"] else None,
         "bounds_log2": {"abs": -10, "rel_mid": -17}}
+    kstat = {"entries": 0, "bitwise": 0}
+
+    def judge_k(i, m):
+        # both are float32 evaluations of the same clamped expression on the same tables:
+        # theorem rcos_core puts each within ((1+u)^5 - 1)(1+kappa)^2 < 2^-21 of the exact value,
+        # so they differ by less than 2^-20 whatever the order of the roundings; floats are not
+        # compared for equality (the share of bitwise equal entries is recorded as evidence)
+        C = kimpl[i]
+        try:
+            Mm = np.array([[int(t) for t in r.split(",")] for r in m.split(";")],
+                          dtype=np.uint32).view(np.float32) if m != "-" else np.zeros((0, 0), np.float32)
+        except ValueError:
+            return f"model answer {m[:80]}"
+        if Mm.shape != C.shape:
+            return f"shape model {Mm.shape} impl {C.shape}"
+        if np.isnan(C).any() or np.isnan(Mm).any():
+            return "NaN"
+        kstat["entries"] += C.size
+        kstat["bitwise"] += int((C.view(np.uint32) == Mm.view(np.uint32)).sum())
+        dd = np.abs(C.astype(np.float64) - Mm.astype(np.float64))
+        if dd.size and dd.max() >= 2.0 ** -20:
+            a, b = np.unravel_index(int(dd.argmax()), dd.shape)
+            return (f"entry [{a},{b}]: kernel {float(C[a, b])!r}, model (Float32) "
+                    f"{float(Mm[a, b])!r}")
+        return None
+
+    custom_correspond(ctx, "Lean cosAngKernel in IEEE Float32 ~ _calculate_angular_distance on the grid's "
+                      "own float32 tables, all sizes incl. 130 nodes (every stored cosine within 2^-20)",
+                      kreqs, judge_k)
+    ctx.extra["kernel_float32_model"] = {
+        "entries": kstat["entries"], "bitwise_equal": kstat["bitwise"],
+        "note": "model cosAngKernel executed in Float32 in the order of the source"}
     custom_correspond(ctx, "Lean gridDistance .geo (Float, GeoGrid object) ~ GeoGrid.angular_distance / distance "
                       "(abs < 2^-10, rel <= 2^-17 on [0.25, pi-0.25])", reqs, judge)
 
@@ -1618,8 +1777,17 @@ def angular_twins(ctx, GeoGrid, rng, g, lat, lon, D):
             rng.shuffle(perm)
             g2 = GeoGrid(np.arange(2), np.array([lat[p] for p in perm]),
                          np.array([lon[p] for p in perm]), silence_level=3)
-            if not np.array_equal(np.array(g2.angular_distance()), D[np.ix_(perm, perm)],
-                                  equal_nan=True):
+            Dp, De = np.array(g2.angular_distance()), D[np.ix_(perm, perm)]
+            if np.array_equal(Dp, De, equal_nan=True):
+                ctx.count("angular:permutation-twin-bitwise")
+            elif (Dp.shape == De.shape and not np.isnan(Dp).any() and not np.isnan(De).any()
+                  and float(np.abs(Dp.astype(np.float64) - De.astype(np.float64)).max())
+                  < 2 * ABS_ANG):
+                # round 5: an evaluation order that is not symmetric in (i, j) bit for bit (equal
+                # over the reals) is not a violation of C12: both entries are within 2^-10 of the
+                # same closed form.  An index mix-up moves entries by far more.
+                ctx.count("angular:permutation-twin-within-2*2^-10")
+            else:
                 out.append(("permutation", f"relabelling the nodes by {perm} does not permute "
                                            "the distance matrix"))
         elif what == "history" and n >= 1:
